@@ -12,10 +12,13 @@ AST (JSON):
   fexpr ::= {"task":body} | {"item":[kind,key,act]} | {"const":val} | {"error":id} | {"lazy":outcome}
   act   ::= {"set":val} | {"err":id} | "skip"
   ctx   ::= {"async":[cid, fault]} | {"nonasync":cid} | {"override":[cid,var,val]}
-  fault ::= None | {"resume":[k,e]} | {"pause":[k,e]} | {"pause":[k,e],"sticky":true}
+  fault ::= None | {"resume":[k,e]} | {"pause":[k,e]} | {"pause":[k,e],"sticky":true} | {"exit":e}
             (k-th scheduler-driven call raises e; "sticky": from then on EVERY pause() call on the context raises e, also the
              one a with block's __exit__ makes - implementation side only: for the model it is PauseRaises k e, and the two
              coincide exactly when no pause() follows a failed one)
+          ({"exit":e}: the pause() that __exit__ makes when the block is left raises e.  For the model this is a program,
+           not a cfault: Exit c (Raise e) on every exit path - exit_ctx deregisters, pauses, and the block's continuation
+           is the error, whatever the block was left with)
   expr  ::= None | int | {"var":v} | {"tuple":[expr]} | {"list":[expr]}
   val   ::= None | int | {"t":[val]} | {"l":[val]}
   outcome ::= {"ok":val} | {"err":id}
@@ -75,7 +78,7 @@ def cact(a):
 def cctx(c):
     if "async" in c:
         cid, f = c["async"]
-        if f is None:
+        if f is None or "exit" in f:
             ft = "NoFault"
         elif "resume" in f:
             ft = "(ResumeRaises %d%%nat %s)" % (f["resume"][0], cz(f["resume"][1]))
@@ -86,6 +89,11 @@ def cctx(c):
         return "(CNonAsync %s)" % cz(c["nonasync"])
     cid, var, v = c["override"]
     return "(COverride %s %s %s)" % (cz(cid), cz(var), cval(v))
+
+
+def exit_fault(c):
+    f = c["async"][1] if "async" in c else None
+    return f["exit"] if f is not None and "exit" in f else None
 
 
 class _Ctr:
@@ -158,6 +166,12 @@ def _cstmts(stmts, ctr, kn, ke, kr):
             st["h"], o, o, st["x"], R(), e, ke(e))
     if op == "with":
         c = cctx(st["c"])
+        xf = exit_fault(st["c"])
+        if xf is not None:
+            # the pause() made by __exit__ raises xf: the block ends with that error on every exit path (normal end,
+            # exception - which it replaces -, return / result)
+            leave = lambda: "Exit %s (%s)" % (c, ke(cz(xf)))
+            return "Enter %s (%s)" % (c, _cstmts(st["body"], ctr, leave, lambda e: leave(), lambda v, res: leave()))
         inner = _cstmts(st["body"], ctr,
                         lambda: "Exit %s (%s)" % (c, R()),
                         lambda e: "Exit %s (%s)" % (c, ke(e)),
@@ -166,7 +180,8 @@ def _cstmts(stmts, ctr, kn, ke, kr):
     if op == "enter":
         return "Enter %s (%s)" % (cctx(st["c"]), R())
     if op == "exit":
-        return "Exit %s (%s)" % (cctx(st["c"]), R())
+        xf = exit_fault(st["c"])
+        return "Exit %s (%s)" % (cctx(st["c"]), R() if xf is None else ke(cz(xf)))
     if op == "try":
         kname, hname, ev = ctr.fresh("k"), ctr.fresh("hd"), ctr.fresh("e")
         handler = _cstmts(st["handler"], ctr, lambda: "%s tt" % kname, ke, kr)
